@@ -50,7 +50,7 @@ pub fn hash_cases(bin : &str, base : &str, thorough : bool, seed : u64) -> Vec<V
             fs::write(format!("{}/{}", dir, rel), &bytes).unwrap();
             if j == 1 { age(&format!("{}/{}", dir, rel), "2001-02-03 04:05:06"); }
             let mut o = ruler_hash(bin, &dir, rel);
-            o["via"] = json!(format!("ruler hash {}", rel));
+            o["via"] = json!(format!("ruler hash {}", rel)); o["fault"] = json!(false);
             outs.push(o);
         }
         recs.push(json!({"id" : format!("rfile.{}.{}", n, k), "kind" : "file", "bytes" : bytes, "outs" : outs}));
@@ -68,8 +68,35 @@ pub fn hash_cases(bin : &str, base : &str, thorough : bool, seed : u64) -> Vec<V
         if k % 3 == 0 { let _ = Command::new("find").args(&[&full, "-exec", "touch", "-d", "1999-01-01", "{}", "+"]).status(); }
         let o2 = ruler_hash(bin, &dir, root);
         fs::remove_dir_all(&full).unwrap();
-        recs.push(json!({"id" : format!("rdir.{}", k), "kind" : "dirpair", "root" : root.as_bytes(), "what" : what, "t1" : gen_ticket::tree_json(&t1), "t2" : gen_ticket::tree_json(&t2),
+        recs.push(json!({"id" : format!("rdir.{}", k), "kind" : "dirpair", "odd" : false, "root" : root.as_bytes(), "what" : what, "t1" : gen_ticket::tree_json(&t1), "t2" : gen_ticket::tree_json(&t2),
                          "ok1" : o1["ok"], "h1" : o1["out"], "ok2" : o2["ok"], "h2" : o2["out"]}));
+    }
+    /* a file whose name is not UTF-8 (Latin-1 "caf\xe9.txt") next to ordinary ones: ruler may refuse such a directory, but if it hashes it,
+       the file counts like any other - changed, removed, renamed */
+    {
+        use std::os::unix::ffi::OsStrExt;
+        let odd : &[u8] = b"caf\xe9.txt";
+        let node = |name : &[u8], content : &[u8]| json!({"n" : name, "k" : "f", "b" : content, "c" : []});
+        let variants : Vec<(Vec<(&[u8], &[u8])>, &str)> = vec![
+            (vec![(b"a", b"x"), (odd, b"one")], "the oddly named file"),
+            (vec![(b"a", b"x"), (odd, b"two")], "its content changed"),
+            (vec![(b"a", b"x")], "it is gone"),
+            (vec![(b"a", b"x"), (b"caf\xe8.txt", b"one")], "it is renamed")];
+        let mut hashed : Vec<(Value, Value)> = vec![];
+        for (ents, _) in variants.iter()
+        {
+            let full = format!("{}/odd", dir);
+            let _ = fs::remove_dir_all(&full); fs::create_dir_all(&full).unwrap();
+            for (n, c) in ents.iter() { fs::write(std::path::Path::new(&full).join(std::ffi::OsStr::from_bytes(n)), c).unwrap(); }
+            let o = ruler_hash(bin, &dir, "odd");
+            hashed.push((json!(ents.iter().map(|(n, c)| node(n, c)).collect::<Vec<Value>>()), o));
+            let _ = fs::remove_dir_all(&full);
+        }
+        for i in 0..hashed.len() { for j in (i + 1)..hashed.len()
+        {
+            recs.push(json!({"id" : format!("rodd.{}.{}", i, j), "kind" : "dirpair", "odd" : true, "root" : "odd".as_bytes(), "what" : format!("{} / {}", variants[i].1, variants[j].1),
+                             "t1" : hashed[i].0, "t2" : hashed[j].0, "ok1" : hashed[i].1["ok"], "h1" : hashed[i].1["out"], "ok2" : hashed[j].1["ok"], "h2" : hashed[j].1["out"]}));
+        } }
     }
     let _ = fs::remove_dir_all(&dir);
     recs
